@@ -173,6 +173,14 @@ class SDy:
         return SDy.rounded(z3.simplify(self.m * o.m), self.e + o.e, self.nb + o.nb, _fl_res(self, o))
     __rmul__ = __mul__
 
+    def __truediv__(self, o):
+        o = SDy.of(o, self.dtype)
+        om = z3.simplify(o.m) if isinstance(o.m, z3.ExprRef) else z3.IntVal(o.m)
+        if z3.is_int_value(om) and abs(om.as_long()) == 1:
+            m = self.m if om.as_long() == 1 else -self.m
+            return SDy(z3.simplify(m), self.e - o.e, self.nb, _fl_res(self, o), chk=False)
+        raise OutsideModel("float division by a non power of two")
+
     def _cmp(self, o, f):
         o = SDy.of(o, self.dtype)
         a, b, _, _ = self._align2(o)
@@ -649,6 +657,11 @@ class SArray:
     def __rsub__(self, o): return self._binop(o, operator.sub, True)
     def __mul__(self, o): return self._binop(o, operator.mul)
     def __rmul__(self, o): return self._binop(o, operator.mul, True)
+    def __truediv__(self, o): return self._binop(o, operator.truediv)
+    def __rtruediv__(self, o): return self._binop(o, operator.truediv, True)
+    def __matmul__(self, o): return h_dot_real(self, o)
+    def __rmatmul__(self, o): return h_dot_real(o, self)
+    def __neg__(self): return SArray(_map(operator.neg, self.a), self.dtype)
     def __and__(self, o): return self._binop(o, operator.and_)
     def __rand__(self, o): return self._binop(o, operator.and_, True)
     def __or__(self, o): return self._binop(o, operator.or_)
@@ -700,7 +713,9 @@ class SArray:
                 raise OutsideModel("ufunc.reduce")
             return NotImplemented
         name = ufunc.__name__
-        if name in _UFUNC_BIN and len(inputs) == 2:
+        if name == "matmul":
+            res = h_dot_real(inputs[0], inputs[1])
+        elif name in _UFUNC_BIN and len(inputs) == 2:
             a, b = inputs
             op = _UFUNC_BIN[name]
             if isinstance(a, SArray):
@@ -819,6 +834,7 @@ def _conc_index(k):
 
 
 _UFUNC_BIN = {
+    "true_divide": operator.truediv, "divide": operator.truediv, "matmul": None,
     "add": operator.add, "subtract": operator.sub, "multiply": operator.mul,
     "bitwise_and": operator.and_, "bitwise_or": operator.or_, "bitwise_xor": operator.xor,
     "left_shift": operator.lshift, "right_shift": operator.rshift,
@@ -1492,6 +1508,21 @@ def h_dot_real(a, b, **kw):
                 acc = t if acc is None else acc + t
             out[i] = acc
         return SArray(out, a.dtype)
+    if a.ndim == 1 and b.ndim == 2:
+        out = real_np.empty((b.shape[1],), dtype=object)
+        for j in range(b.shape[1]):
+            acc = None
+            for k in range(a.shape[0]):
+                t = a.a[k] * b.a[k, j]
+                acc = t if acc is None else acc + t
+            out[j] = acc
+        return SArray(out, b.dtype)
+    if a.ndim == 1 and b.ndim == 1:
+        acc = None
+        for k in range(a.shape[0]):
+            t = a.a[k] * b.a[k]
+            acc = t if acc is None else acc + t
+        return acc
     raise OutsideModel("np.dot of these shapes")
 
 
